@@ -544,6 +544,9 @@ def gen_merge(rng):
     pool = [1, 2, 3, 5, 8, 13] if intkeys else ['a', 'b', 'c', 'd', 'e', 'f']
     suffixes = None if rng.random() < 0.5 else rng.sample(['1', '2', 'x', 'left', 'B', 'tcr'], nt)
     keymode = rng.choice(['unique', 'unique', 'repeated', 'repeated', 'shared'])
+    # tables that share a value-column name although no suffixes are given (two or three count tables merged as they are): the join
+    # is still demanded; how the clashing names are told apart is pandas' business, so only the stem of each name is compared
+    overlap = suffixes is None and nt <= 3 and rng.random() < 0.35
     tables = []
     for t in range(nt):
         if keymode == 'unique':
@@ -558,7 +561,7 @@ def gen_merge(rng):
             if rng.random() < 0.3:
                 ks.sort(key=repr)
         ncol = rng.randint(1, 2)
-        if suffixes is not None:
+        if suffixes is not None or overlap:
             names = rng.sample(['v', 'w', 'count'], ncol)
         else:
             names = ['t%d_%s' % (t, s) for s in rng.sample(['v', 'w', 'count'], ncol)]
@@ -575,7 +578,7 @@ def gen_merge(rng):
         tables.append(dict(keys=ks, columns=cols))
     how = rng.choice([None, None, 'outer', 'inner'])
     on = rng.choice(['index', 'k', 'k', 'clonotype'])
-    return dict(tables=tables, on=on, suffixes=suffixes, how=how,
+    return dict(tables=tables, on=on, suffixes=suffixes, how=how, overlap=overlap,
                 suffix_container=rng.choice(['list', 'list', 'tuple']) if suffixes else None)
 
 
@@ -631,6 +634,10 @@ def check_merge(ctx, ncases):
     # the minimal D11 input first
     cases.insert(0, dict(tables=[dict(keys=['a', 'b'], columns=[['v', [1, 2]]]), dict(keys=['b', 'c'], columns=[['w', ['x', 'y']]])],
                          on='k', suffixes=None, how=None))
+    # two count tables with the same value-column name, merged on the index / on a key column without suffixes
+    for on in ('index', 'k'):
+        cases.insert(1, dict(tables=[dict(keys=['a', 'b'], columns=[['count', [1, 2]]]), dict(keys=['b', 'c'], columns=[['count', [3, 4]]])],
+                             on=on, suffixes=None, how=None, overlap=True))
     merge_cases(ctx, cases)
 
 
@@ -670,7 +677,11 @@ def merge_verdict(case, outs, io):
     if code != 0:
         return 'correspondence', where + ': model raises %s but the implementation returned a table' % CODE[code]
     model_rows = sorted([[k, list(r)] for k, r in mrows], key=repr)
-    if got['columns'] != list(mcols):
+    if case.get('overlap'):
+        if len(got['columns']) != len(mcols) or not all(g == m or g.startswith(m + '_') for g, m in zip(got['columns'], mcols)):
+            return 'property', where + ': columns %s, expected the value columns %s in table order (clashing names told apart)' % (
+                got['columns'], list(mcols))
+    elif got['columns'] != list(mcols):
         return 'property', where + ': columns %s, expected %s' % (got['columns'], list(mcols))
     if got['rows'] != model_rows:
         gc, mc = group_counts(got['rows']), group_counts(model_rows)
